@@ -154,7 +154,7 @@ def elf_object(ctx, stream, cls, little, machine='EM_X86_64', e_type='ET_EXEC', 
     else:
         mnum = machine
     img = Image(cls, little, machine=mnum, e_type=_ET.get(e_type, e_type), osabi=osabi) if 'osabi' in Image.__init__.__code__.co_varnames else Image(cls, little, machine=mnum, e_type=_ET.get(e_type, e_type))
-    elf = EF.ELFFile(ctx.stream(img.build()))
+    elf = open_elf(ctx, img.build())
     elf.stream = stream
     elf.stream_len = stream_length(stream)
     return elf
